@@ -9,6 +9,11 @@ CHECKS = {
     technique='explicit-state exploration of the real engine: all (prefix history, probe) pairs to depth 2/3, differential oracle against a fresh engine on a copy of the database',
     text='Every sequence of up to 2 (quick) / 3 (thorough) requests over a 16-19 letter alphabet by three clients under five protocol versions (incl. requests rejected in the header) is executed on the real session+engine; in every reached state each of 61 probes is run both there and on a fresh engine over a copy of the same database, and response and post-state must be identical. Exhaustive within the bound; this is the right level because the property is a non-interference statement over histories that no finite set of unit tests covers.',
     note='Time and os.urandom are owned by the harness. Identifier-less Activate/Revoke cannot be sent because the decoder rejects them. Alphabet and depth bound as stated; transient state that only a longer history can create is not covered.'),
+ 'C04': dict(
+    category='model_checking', design_ref='DESIGN.md 4/C04',
+    technique='explicit-state BFS to fixpoint over the real engine per (object kind, usage-mask variant); thorough adds the unmerged depth-3 sequence tree with a differential check of the state abstraction',
+    text='For each of 7 stored object kinds x 16 usage-mask variants every one of 26 actions (Activate, Revoke with each reason code, Destroy, Encrypt, Decrypt, Sign, SignatureVerify, MAC, DeriveKey as first/second base, Get wrapped by it, Set/Modify/DeleteAttribute aimed at State) is executed in every reachable lifecycle state of the real engine until no new state appears; every observed transition must be an allowed lifecycle edge and every succeeding cryptographic use must find the object Active, of the right kind and with the matching mask bit. Exhaustive over the reachable canonical state space, which is finite and reaches a fixpoint.',
+    note='Canonical state = (kind, mask variant, lifecycle state | destroyed); soundness of merging is checked in the thorough tier by requiring equal answers from all depth-3 histories reaching the same canonical state. One object under test at a time; right-kind table and CA_COMPROMISE reading as in DESIGN.md 4a.'),
 }
 
 NOT_YET = {}
